@@ -391,7 +391,12 @@ def simPar (fam : Fam) (cfg : SCfg) (threads builtWith : Nat) (tape : List (List
             let i := (w.drop 1).toNat!
             match s.pcs[i]? with
             | some .exiting => go fuel (setPc s i .gone) rest
-            | _ => throw s!"worker {i} exits although the model does not"
+            | _ =>
+              -- C04, last clause, evaluated on the implementation's own trace: a worker may leave the search only when it
+              -- was aborted or when nothing is open or in progress (the model's bookkeeping agreed with the code up to here)
+              if !s.c.base.abort && (s.c.ongoing > 0 || !s.c.base.fringe.isEmpty) then
+                throw s!"C04-CLOSED worker {i} leaves the search while {s.c.ongoing} sub-problems are in progress and {s.c.base.fringe.length} are open (no abort)"
+              else throw s!"worker {i} exits although the model does not"
           | [w, "CRASH"] =>
             let i := (w.drop 1).toNat!
             match s.pcs[i]? with
@@ -441,10 +446,12 @@ def parEngine (c i : List String) : Option Res := do
         let pf := withFeatureFails cfg.cache fam.domRule.isSome pf
         let pf := pf ++ gapFails lb ub gapT
         fails := pf ++ fails
+        if why.startsWith "C04-CLOSED" then fails := s!"C04:the search is declared complete while work remains: {(why.drop 11).toString}" :: fails
         pure { agree := agree, phi := fails.isEmpty, model := ms, note := failNote fails ++ (if agree then "" else " TRACE: " ++ why) }
       | _ =>
         -- no final state (deadlock / overrun / panic): the trace up to that point must still be valid
         let (agree, why) := match sim with | .error e => (false, e) | .ok _ => (true, "")
+        if why.startsWith "C04-CLOSED" then fails := s!"C04:the search is declared complete while work remains: {(why.drop 11).toString}" :: fails
         pure { agree := agree, phi := fails.isEmpty, model := "-", note := failNote fails ++ (if agree then "" else " TRACE: " ++ why) }
     | _ => none
   | _ => none
